@@ -49,8 +49,8 @@ func sameResult(a, b OpResult) bool {
 func init() {
 	register(&CheckDef{
 		ID: "C09", Level: "fault_enumeration",
-		Technique: "deterministic simulation with read-fault enumeration on the scripted crypto/rand.Reader: every read position of a sampled generation x {error after 0-3 bytes, EOF, short successful reads, zero-length reads}, chunking schedules over identical bytes, post-fault health, dependence on and only on the consumed bytes",
-		Rule:      "case = one generation under one fault plan or chunking schedule; distinct by hash of (configuration, tape, fault); non-trivial = a fault or a non-trivial chunking is actually delivered inside the generation",
+		Technique:   "deterministic simulation with read-fault enumeration on the scripted crypto/rand.Reader: every read position of a sampled generation x {error after 0-3 bytes, EOF, short successful reads, zero-length reads}, chunking schedules over identical bytes, post-fault health, dependence on and only on the consumed bytes",
+		Rule:        "case = one generation under one fault plan or chunking schedule; distinct by hash of (configuration, tape, fault); non-trivial = a fault or a non-trivial chunking is actually delivered inside the generation",
 		Assumptions: []string{"go1.23.5 semantics: crypto/rand.Read = io.ReadFull(rand.Reader, b); from go1.24 a failing Reader kills the process instead (still fails closed, observable only from outside)", "outcome classes: a returned error, a recovered panic and abnormal exit are all 'aborted'"},
 		Episodes:    map[string]int{"quick": 1600, "thorough": 100000},
 		TwiceEvery:  5,
